@@ -45,6 +45,17 @@ class Result(object):
         self.unclassified = []
         self.counts = {}
         self.rules = {}         # rule id -> one-line description
+        self.errors = []        # analysis errors (anchor lost, floor unmet)
+
+    def run_rule(self, fn, *args):
+        """Run one rule; an AnalysisError in it is recorded and the other
+        rules still run (a violation found elsewhere takes priority over an
+        analysis error when the exit code is chosen)."""
+        from .core import AnalysisError
+        try:
+            fn(*args)
+        except AnalysisError as e:
+            self.errors.append('%s: %s %s' % (fn.__name__, e.anchor, e.why))
 
     def rule(self, rid, text):
         self.rules[rid] = text
@@ -71,11 +82,10 @@ class Result(object):
     def floor(self, rule, what, got, need):
         """Instance floor: fewer matches than confirmed by hand means the
         rule would pass vacuously -> analysis error."""
-        from .core import AnalysisError
         self.counts['floor:%s:%s' % (rule, what)] = got
         if got < need:
-            raise AnalysisError('%s %s' % (rule, what),
-                                'instance floor not met: %d < %d' % (got, need))
+            self.errors.append('%s %s: instance floor not met: %d < %d' % (
+                rule, what, got, need))
 
 
 def load_known():
